@@ -1,8 +1,10 @@
 package main
 
 import (
+	"net/url"
 	"path"
 	"strings"
+	"time"
 
 	webdav "github.com/emersion/go-webdav"
 
@@ -39,18 +41,25 @@ var times = []instant{
 
 var zones = []int{0, 3600, -18000, 19800, 0, 49500, -34200}
 
+// zones with daylight saving time, fractional offsets, a half-hour DST shift
+var zonesNamed = []string{"America/New_York", "Europe/Dublin", "Australia/Lord_Howe", "Asia/Kathmandu", "Pacific/Chatham", "Local"}
+
+func inNamedZone(t time.Time, name string) time.Time {
+	if loc, err := time.LoadLocation(name); err == nil {
+		return t.In(loc)
+	}
+	return t
+}
+
 var sizes = []int64{0, 1, 7, 4096, 1 << 31, 1<<53 + 1, 1<<62 - 1, -1, -(1 << 62), 1<<63 - 1, -(1 << 63)}
 
 // endpoint path as the client will hold it (url.Parse(...).Path, "" -> "/")
 func epPathOf(endpoint string) string {
-	i := strings.Index(endpoint, "//")
-	rest := endpoint[i+2:]
-	j := strings.Index(rest, "/")
-	if j < 0 {
+	u, err := url.Parse(endpoint)
+	if err != nil || u.Path == "" {
 		return "/"
 	}
-	p := strings.ReplaceAll(rest[j:], "%20", " ")
-	return p
+	return u.Path
 }
 
 // target the client will address (used only to script the synthetic backend and to
@@ -128,7 +137,7 @@ func nameForms(endpoint, rel string) []string {
 // wrap puts the tree below the directories the endpoint path names.
 func wrap(endpoint string, t *davx.Node) *davx.Node {
 	segs := []string{}
-	for _, s := range strings.Split(epPathOf(endpoint), "/") {
+	for _, s := range strings.Split(path.Clean(epPathOf(endpoint)), "/") {
 		if s != "" {
 			segs = append(segs, s)
 		}
@@ -155,9 +164,24 @@ func local(t *davx.Node) hx.Sx { return sx(hx.L("local", t.Sx())) }
 
 var chunkSets = [][]string{nil, {"x"}, {"ab", "", "cd"}, {strings.Repeat("0123456789abcdef", 4500)}, {"\x00\xff", "é"}}
 
-func generate(out chan<- caseIn) {
+// how the response body reaches the client (see inproc.Do), and "d": the request is
+// handed to the handler as the client built it
+var trModes = []string{"i", "i1", "ie", "ic", "iu", "iL", "iS", "d", "i", "d1e"}
+
+func generate(out chan<- job) {
 	thorough := hx.Tier() == "thorough"
-	emit := func(tr, ep string, be, op hx.Sx) { out <- caseIn{transport: tr, endpoint: ep, backend: be, op: op} }
+	nEmit := 0
+	emit := func(tr, ep string, be, op hx.Sx) {
+		nEmit++
+		if tr == "i" { // in-process: rotate through the forms in which the response body is delivered
+			tr = trModes[nEmit%len(trModes)]
+		}
+		out <- job{c: caseIn{transport: tr, endpoint: ep, backend: be, op: op}}
+	}
+	emitSeq := func(tr, ep string, be hx.Sx, ops []hx.Sx) {
+		out <- job{c: caseIn{transport: tr, endpoint: ep, backend: be, op: ops[0], seq: ops}}
+	}
+	emitOverlap := func(batch []caseIn) { out <- job{c: batch[0], batch: batch} }
 
 	// ---- part 1: every hostile name x every endpoint x every operation, on disk
 	for ni, n := range hostile {
@@ -166,7 +190,7 @@ func generate(out chan<- caseIn) {
 				continue // quick: half of the (name, endpoint) grid beyond the first names
 			}
 			be := local(wrap(ep, baseTree(n)))
-			tr := "i"
+			tr := trModes[(ni*7+ei)%len(trModes)]
 			for _, f := range nameForms(ep, n) {
 				emit(tr, ep, be, opStat(f))
 				emit(tr, ep, be, opOpen(f))
@@ -428,6 +452,10 @@ func generate(out chan<- caseIn) {
 	// library's server (scripted multistatus, no webdav.Handler)
 	generateForeign(rng, thorough, emit)
 
+	// ---- part 3d: what the generator audit asked for (histories, overlapping calls,
+	// sizes, unclean configuration, special directory entries, error answers)
+	generateAudit(rng, thorough, emit, emitSeq, emitOverlap)
+
 	// ---- part 4: seeded random cases
 	nRandom := 6000
 	if thorough {
@@ -505,6 +533,9 @@ func randInfo(rng *hx.Rand, p string) webdav.FileInfo {
 		tm = instant{int64(rng.U64()%300000000000) - 30000000000, int64(rng.Intn(1000000000))}
 	}
 	fi := webdav.FileInfo{Path: p, Size: sizes[rng.Intn(len(sizes))], ModTime: inZone(mkTime(tm.sec, tm.ns), zones[rng.Intn(len(zones))]), IsDir: rng.Chance(1, 4)}
+	if rng.Chance(1, 3) {
+		fi.ModTime = inNamedZone(mkTime(tm.sec, tm.ns), rng.Pick(zonesNamed))
+	}
 	switch rng.Intn(3) {
 	case 0:
 		fi.MIMEType = rng.Pick(hostileMimes)
@@ -524,53 +555,67 @@ func randInfo(rng *hx.Rand, p string) webdav.FileInfo {
 	return fi
 }
 
-func emitRandom(rng *hx.Rand, emit func(tr, ep string, be, op hx.Sx)) {
+// set while random cases are drawn for a sequence on one synthetic backend
+var (
+	forceEp  string
+	forceMem bool
+)
+
+// randLocalOp: a random call on a tree whose relative paths are rels.
+func randLocalOp(rng *hx.Rand, ep string, rels []string) hx.Sx {
+	pick := func() string {
+		r := rng.Pick(rels)
+		switch rng.Intn(5) {
+		case 0:
+			return path.Join(epPathOf(ep), r)
+		case 1:
+			return r + "/"
+		case 2:
+			return randName(rng, true)
+		case 3:
+			if r == "" {
+				return randName(rng, true)
+			}
+			return r + "/" + randName(rng, true)
+		}
+		return r
+	}
+	switch rng.Intn(9) {
+	case 0:
+		return opStat(pick())
+	case 1, 2:
+		return opReadDir(pick(), rng.Bool())
+	case 3:
+		return opOpen(pick())
+	case 4:
+		var chunks []string
+		for i := rng.Intn(4); i > 0; i-- {
+			chunks = append(chunks, randBytes(rng, 40, false))
+		}
+		return opCreate(pick(), chunks)
+	case 5:
+		return opMkdir(pick())
+	case 6:
+		return opRm(pick())
+	case 7:
+		return opCopy(pick(), pick(), rng.Bool(), rng.Bool())
+	}
+	return opMove(pick(), pick(), rng.Bool())
+}
+
+func emitRandom(rng *hx.Rand, emit0 func(tr, ep string, be, op hx.Sx)) {
 	ep := rng.Pick(endpoints)
-	if rng.Chance(1, 2) {
+	if forceEp != "" {
+		ep = forceEp
+	}
+	mode := trModes[rng.Intn(len(trModes))]
+	emit := func(tr, ep string, be, op hx.Sx) { emit0(mode, ep, be, op) }
+	if !forceMem && rng.Chance(1, 2) {
 		// on disk
 		t := randTree(rng, 3)
 		var rels []string
 		allRel(t, "", &rels)
-		be := local(wrap(ep, t))
-		pick := func() string {
-			r := rng.Pick(rels)
-			switch rng.Intn(5) {
-			case 0:
-				return path.Join(epPathOf(ep), r)
-			case 1:
-				return r + "/"
-			case 2:
-				return randName(rng, true)
-			case 3:
-				if r == "" {
-					return randName(rng, true)
-				}
-				return r + "/" + randName(rng, true)
-			}
-			return r
-		}
-		switch rng.Intn(9) {
-		case 0:
-			emit("i", ep, be, opStat(pick()))
-		case 1, 2:
-			emit("i", ep, be, opReadDir(pick(), rng.Bool()))
-		case 3:
-			emit("i", ep, be, opOpen(pick()))
-		case 4:
-			var chunks []string
-			for i := rng.Intn(4); i > 0; i-- {
-				chunks = append(chunks, randBytes(rng, 40, false))
-			}
-			emit("i", ep, be, opCreate(pick(), chunks))
-		case 5:
-			emit("i", ep, be, opMkdir(pick()))
-		case 6:
-			emit("i", ep, be, opRm(pick()))
-		case 7:
-			emit("i", ep, be, opCopy(pick(), pick(), rng.Bool(), rng.Bool()))
-		default:
-			emit("i", ep, be, opMove(pick(), pick(), rng.Bool()))
-		}
+		emit("i", ep, local(wrap(ep, t)), randLocalOp(rng, ep, rels))
 		return
 	}
 	// synthetic: arbitrary paths and metadata, also listings that are not trees
